@@ -137,7 +137,8 @@ def run(ctx, res):
         I = Interp(F)
         inp = input_slice()
         outs = I.run(chunk_parse[0], [inp])
-        reps = [r for r in I.loop_reports if r.fn == chunk_parse[0]]
+        # the loops met while interpreting the chunk parser, wherever it keeps them (helpers it calls included)
+        reps = [r for r in I.loop_reports if r.fn == chunk_parse[0] or r.fn not in (item_parse or [])]
         item_loops = [r for r in reps if r.backs and any(isinstance(n, Lin) for _, m in r.backs for n in m.values())]
         terminated = set()
         for s, k, v in outs:
